@@ -892,3 +892,58 @@ def format_replacement(R, ctx, rid):
              "(look-up found: %s, live only: %s)" % (bool(starts), live), cs.loc())
     kinds = {F.strip_generics(c.name).rsplit("::", 1)[-1] for c in acct}
     R.ob(rid, fn, "both-cases", kinds >= {"remove", "insert"}, "negated attributes are updated by %s" % sorted(kinds))
+
+
+# parameters that carry formatting context into a gap scan by design: function -> parameter names
+GAP_CONTEXT_PARAMS = {
+    "yrs::transaction::TransactionMut::cleanup_fmt_gap": {"start_attrs", "curr_attrs"},
+    "yrs::transaction::TransactionMut::cleanup_fmt_gap_contextless": set(),
+}
+
+
+def gap_scan_state(R, ctx, rid):
+    Y = ctx.yrs
+    R.rule(rid, "R-PROV a formatting clean-up decides against the marks of ITS gap only: in TransactionMut::cleanup_fmt_gap_contextless "
+                "and cleanup_fmt_gap every collection whose look-up / insertion result decides a delete of a mark (`!seen.insert(key)`, "
+                "`end_fmts.get(key)`, …) is either created empty inside that function (`HashSet::new()` / `HashMap::new()` local) or is "
+                "one of the context parameters the function takes by design (start_attrs, curr_attrs of the context-aware variant): "
+                "state that survives from one gap to the next makes the only effective mark of a later gap look like a duplicate — "
+                "the clean-up runs after the observers have fired, so the deletion is reported by no event")
+    n = 0
+    for path, allowed in GAP_CONTEXT_PARAMS.items():
+        fn = Y.fn(path)
+        v = FnView(fn)
+        calls_by_bb = {c.bb: c for c in fn.calls()}
+        dels = fn.calls_to("yrs::transaction::TransactionMut::delete")
+        R.floor(rid, "mark deletions in %s" % path.rsplit("::", 1)[-1], len(dels), 1)
+        for cs, site in ordinal_sites(dels):
+            bad = []
+            used = []
+            for l in v.guards(cs.bb):
+                t = simp(l.term)
+                # look through comparisons on look-up results: find collection calls anywhere in the literal
+                for x in walk(simp_deep(l.term)):
+                    if x[0] == "call" and re.search(r"(HashSet|HashMap|BTreeMap|BTreeSet)(<.*>)?::(insert|get|contains|contains_key|remove|get_mut)$", F.strip_generics(x[1])) and len(x) > 3:
+                        c = calls_by_bb.get(x[3])
+                        if c is None or not c.args:
+                            continue
+                        r = mir_root(fn, c.args[0])
+                        if r[0] == "local" and 1 <= r[1] <= fn.argc():
+                            name = fn.local_name(r[1]) or (fn.sig.get("params") or [None] * 9)[r[1] - 1]
+                            used.append("param %s" % name)
+                            if name not in allowed:
+                                bad.append("parameter `%s`" % name)
+                        elif r[0] == "local":
+                            d = mir_def(fn, c.args[0])
+                            fresh = d is not None and d[0] == "call" and re.search(r"::(new|default|with_capacity)$", d[1].name) is not None
+                            used.append("local _%d (%s)" % (r[1], "fresh" if fresh else "not created here"))
+                            if not fresh:
+                                bad.append("local _%d that is not created empty in this function" % r[1])
+                        else:
+                            used.append(str(r)[:40])
+                            if "TransactionMut." in str(r) or "Store." in str(r):
+                                bad.append("a field of the transaction/store")
+            n += 1
+            R.ob(rid, fn, "state:" + site, not bad, "decided against %s" % (sorted(set(used)) or "no collection") if not bad else
+                 "the delete is decided against %s: state from other gaps takes part in the duplicate test" % sorted(set(bad)), cs.loc())
+    R.floor(rid, "mark deletions checked", n, 2)
